@@ -249,7 +249,12 @@ impl Dependencies for ReassignmentPath {
                 result.append(&mut index.net_dependencies());
                 result
             }
-            Self::DotLookup { lhs, .. } => lhs.dependencies(),
+            Self::DotLookup { lhs, dot_chain, .. } => {
+                // `a.pick(k).v = 1`: the arguments of a call on the way to the field are used like any other name
+                let mut result = lhs.dependencies();
+                result.append(&mut dot_chain.net_dependencies());
+                result
+            }
         }
     }
 }
